@@ -102,7 +102,7 @@ fn invalid_query<E>(source: E, name: &str, val: &str) -> S3Error
 where
     E: std::error::Error + Send + Sync + 'static,
 {
-    s3_error!(source, InvalidArgument, "invalid query: {}: {}", name, val)
+    s3_error!(source, InvalidArgument, "invalid query: {}: {:?}", name, val)
 }
 
 pub fn parse_query<T: FromStr>(req: &Request, name: &str) -> S3Result<T>
